@@ -27,7 +27,7 @@ for d in $touched; do
   res_tests="$res_tests$d: $r; "
 done
 cp $out/zz_seed_demo_test.go $wt/$pkgdir/zz_seed_demo_test.go
-run_demo() { if [[ $pkgdir == pkg/* ]]; then (cd pkg && GOPROXY=off go test -vet=off -count=1 -run 'Seed' ./${pkgdir#pkg/}/ 2>&1) | tail -1; else GOPROXY=off go test -vet=off -count=1 -run 'Seed' ./$pkgdir/ 2>&1 | tail -1; fi; }
+run_demo() { if [[ $pkgdir == pkg/* ]]; then (cd pkg && GOPROXY=off go test -vet=off -count=1 -run '[Ss]eed' ./${pkgdir#pkg/}/ 2>&1) | tail -1; else GOPROXY=off go test -vet=off -count=1 -run '[Ss]eed' ./$pkgdir/ 2>&1 | tail -1; fi; }
 with=$(run_demo)
 git apply -R $out/patch.diff
 without=$(run_demo)
@@ -40,6 +40,6 @@ python3 - "$id" "$pkgdir" "$res_build" "$res_tests" "$with" "$without" <<'PY'
 import json,sys
 id,pkgdir,b,t,w,wo=sys.argv[1:7]
 meta={"seed":id,"demo_package":pkgdir,"build_with_change":b or "ok","existing_tests_with_change":t,"demo_with_change":w,"demo_without_change":wo,
-      "demo_cmd":"GOPROXY=off go test -vet=off -count=1 -run Seed ./%s/"%pkgdir}
+      "demo_cmd":"GOPROXY=off go test -vet=off -count=1 -run [Ss]eed ./%s/"%pkgdir}
 json.dump(meta,open('/verif/seeded/%s/meta.json'%id,'w'),indent=1)
 PY
